@@ -100,13 +100,16 @@ class C19(Prop):
             "mode x stream type x directive shape (none, all absent, exact, +1, mixed, unreachable, out of range, too many, "
             "unpaddable message) and codec lists, plus random multi-case suites; compared: the error class and the index of the "
             "failing test case, or per test case and message the same observables as c19.expand. "
+            "Fourth wave: c19.sharp / c19.stream client-side cases run under BOTH codecs (responses sized so that their JSON "
+            "encoding has limit-1 / limit / limit+1 bytes); c19.stream client streams whose FIRST request carries an error "
+            "definition with a later message at limit+1 (outcome must be resource_exhausted); c19.expand offsets of +1 .. +16 MiB. "
             "non-trivial = padding changed, an error class other than range, an RPC verdict, or a suite with a directive")
     trusted_base = ("Coq 8.16.1 kernel (vm_compute used, native_compute not)", "extraction (ExtrOcamlBasic only) + ocaml/driver.ml",
                     "vlib generators/comparator, Go overlay harness files (build the request messages, classify error texts into 4 tags, "
                     "the go/ast scan of TestVerifConsts that lists the read-limiting call sites of referenceserver / referenceclient, "
                     "the exact-size response handler used as the reference client's peer, the plain HTTP client of c19.stream that "
                     "envelopes/compresses the request messages itself and reads the end-of-stream status, the generated suite files "
-                    "of c19.wiring and c19.load)",
+                    "of c19.wiring and c19.load, the JSON sizing of the stub's responses)",
                     "modelled not verified: google.golang.org/protobuf (proto.Size, Any), connect-go WithReadMaxBytes - the latter only "
                     "compared with the specification `accepts` by live runs")
     assumptions = ("request_data is a proto3 bytes field with implicit presence and a field number < 16 in every padded request type "
@@ -123,7 +126,11 @@ class C19(Prop):
                   "exactly or the load fails for a justified reason; compared with parseTestSuites on generated suite files. The readers the "
                   "set-up code of both reference peers installs are in the model (per-message / per-body, table regenerated from the sources): "
                   "proved that the documented chain is sharp per message, that ANY bound on the body refuses some stream of messages of exactly "
-                  "the limit, and that the installed readers are the documented chain; streams of up to 16 messages of exactly the limit run live.")
+                  "the limit, and that the installed readers are the documented chain; streams of up to 16 messages of exactly the limit run live. "
+                  "Fourth wave: the reference client's option set-up is a model function of the codec, proved to install the documented chain for "
+                  "EVERY codec (client_limit_any_codec) and run live under proto and JSON; the reference server's ClientStream handler is modelled "
+                  "(receive error first, then the response definition) with receive_error_comes_first, run live with error definitions; the padding "
+                  "source of the loop is explicit (unbounded_source_is_expand, bounded_source_rejects_reachable) and offsets up to +16 MiB are executed.")
     level_note = ("Trusted: Coq kernel, extraction, OCaml driver, harness. Correspondence model/Go is sampled (windows around every "
                   "boundary), not proved. limit_sharp (`accepts`) is a specification that execution is compared with, not a theorem about "
                   "connect-go. Known finding wire-size-also-limited: connect-go applies the limit to the compressed envelope as well, so "
@@ -133,7 +140,10 @@ class C19(Prop):
                   "Full-duplex response streams are exercised with acceptable messages only (connect-go's client drains the response "
                   "after a message above the limit while a full-duplex peer waits for the next request). The table of installed readers "
                   "is syntactic (calls of connect.WithReadMaxBytes, http.MaxBytesHandler/MaxBytesReader, io.LimitReader/LimitedReader in the two "
-                  "packages): a bound installed by other means shows only in the live streams of 4-16 messages.")
+                  "packages): a bound installed by other means shows only in the live streams of 4-16 messages. Under JSON the size the limit "
+                  "applies to is the JSON text as connect-go's codec encodes it (computed in the harness with the same protojson call in the same "
+                  "binary). Client streams with an error definition are sent by the plain HTTP senders only (the error response echoes every "
+                  "request and exceeds the reference client's own limit).")
     technique = "Coq proof (fixed-point iteration on a step function, case split on varint classes); differential model-vs-Go; live RPC spec comparison"
 
     def nontrivial(self, case, res):
